@@ -120,7 +120,14 @@ impl RtpsReaderProxy {
             remote_group_entity_id,
             unicast_locator_list: unicast_locator_list.to_vec(),
             multicast_locator_list: multicast_locator_list.to_vec(),
-            highest_sent_seq_num: 0,
+            // A best-effort reader is simply sent every change above the highest one sent so far:
+            // the changes that are not relevant for it (the history, for a volatile reader) count
+            // as sent. The reliable state machine checks first_relevant_sample_seq_num itself.
+            highest_sent_seq_num: if matches!(reliability, ReliabilityKind::BestEffort) {
+                first_relevant_sample_seq_num
+            } else {
+                0
+            },
             highest_acked_seq_num: 0,
             requested_changes: Vec::new(),
             expects_inline_qos,
